@@ -43,6 +43,11 @@ fn main() {
     "o20_2_obj_layout_fixed" => c_obj_layout_fixed(),
     "o20_1_alloc_drop_string" => c_alloc_drop_string(n(2)),
     "o20_1_alloc_drop_tuple" => c_alloc_drop_tuple(n(2)),
+    "o20_1_alloc_drop_list" => c_alloc_drop_list(n(2), n(3)),
+    "o20_1_alloc_drop_instance" => c_alloc_drop_instance(n(2)),
+    "o20_3_unique_vector_handle" => c_unique_vector_handle(n(2), n(3)),
+    "o20_3_shared_vector_handle" => c_shared_vector_handle(n(2), n(3)),
+    "o20_3_array_handle" => c_array_handle(n(2)),
     "o20_1_alloc_drop_box" => c_alloc_drop_box(),
     "o20_1_alloc_drop_method" => c_alloc_drop_method(),
     other => { eprintln!("unknown contract {other}"); std::process::exit(2) },
